@@ -1,5 +1,6 @@
 """Stages shared by all checks: proof obligations, correspondence."""
 import os
+import re
 import time
 
 import obligations
@@ -42,6 +43,18 @@ def proof_stage(rep, prop, extra_targets=()):
         rep.cov["trusted_base"].append("standard-library axioms used: " + ", ".join(sorted(used)))
     else:
         rep.cov["trusted_base"].append("axioms: none (every theorem closed under the global context)")
+    if rep.tier == "thorough":
+        # independent re-check of the compiled property file and everything it depends on
+        rc, out, err = sfv.sh(["timeout", "1500", "coqchk", "-silent", "-o", "-Q", sfv.COQ, "SF", "SF.Properties.%s" % prop],
+                              check=False, timeout=1600)
+        txt = out + err
+        axioms = sorted(set(re.findall(r"^\s*((?:Coq|SF|Flocq)\.[\w.']+)\s*$", txt, re.M)))
+        rep.cov["coqchk"] = {"exit": rc, "axioms_listed": axioms}
+        foreign = [a for a in axioms if not any(a.endswith(x.split(".")[-1]) for x in sfv.STDLIB_AXIOMS_ALLOWED)]
+        if rc != 0 or foreign:
+            rep.violation({"kind": "proof", "what": "coqchk rejects Properties/%s or lists axioms outside the allow-list" % prop,
+                           "axioms": foreign, "log": txt[-2000:]}, nofail=True)
+            return False
     return discharged == len(theorems)
 
 
